@@ -298,6 +298,10 @@ func VerifC02_Range() {
 	attached := vBool("attached")
 	a := vInt("a", -4611686018427387904, 4611686018427387904)
 	d := vInt("d", 1, 3)
+	// what the option already holds when the range arrives: nothing, one value
+	// from an earlier occurrence, two values from an earlier occurrence, or one
+	// earlier mandatory value of the same occurrence (min 2)
+	before := vInt("before", 0, 3)
 	b := a + d
 	sa, sb := strconv.Itoa(a), strconv.Itoa(b)
 	if !attached {
@@ -305,25 +309,43 @@ func VerifC02_Range() {
 	}
 	opt := New()
 	setMode(opt, mode)
-	pi := opt.IntSlice("name", 1, 2)
+	min, max := 1, 2
+	if before == 3 {
+		vAssume(!attached)
+		min, max = 2, 3
+	}
+	pi := opt.IntSlice("name", min, max)
 	vPhase("run")
 	var args []string
+	var held []int
+	switch before {
+	case 1:
+		args, held = []string{"--name", "7"}, []int{7}
+	case 2:
+		args, held = []string{"--name", "7", "8"}, []int{7, 8}
+	}
 	if attached {
-		args = []string{"--name=" + sa + ".." + sb, "5"}
+		args = append(args, "--name="+sa+".."+sb, "5")
+	} else if before == 3 {
+		args, held = append(args, "--name", "9", sa+".."+sb, "5"), []int{9}
 	} else {
-		args = []string{"--name", sa + ".." + sb, "5"}
+		args = append(args, "--name", sa+".."+sb, "5")
 	}
 	remaining, err := opt.Parse(args)
 	vObserve("err", err)
 	vObserve("values", *pi)
 	vAssert("no-error", err == nil)
 	vAssert("remaining-empty", len(remaining) == 0)
-	vAssert("length", len(*pi) == d+2)
-	if len(*pi) == d+2 {
-		for k := 0; k <= d; k++ {
-			vAssert("element", (*pi)[k] == a+k)
+	h := len(held)
+	vAssert("length", len(*pi) == h+d+2)
+	if len(*pi) == h+d+2 {
+		for k := 0; k < h; k++ {
+			vAssert("earlier-values-kept", (*pi)[k] == held[k])
 		}
-		vAssert("following-value", (*pi)[d+1] == 5)
+		for k := 0; k <= d; k++ {
+			vAssert("element", (*pi)[h+k] == a+k)
+		}
+		vAssert("following-value", (*pi)[h+d+1] == 5)
 	}
 	vReach("expanded")
 }
